@@ -432,3 +432,88 @@ def repo_lints(ctx):
     hit = [s for s in ast.walk(pos) if isinstance(s, ast.Subscript) and isinstance(s.value, ast.Attribute) and s.value.attr in ELEM_TABLES and isinstance(s.slice, ast.Name) and s.slice.id == "i"]
     r1.must_fire(bool(hit), "integration_elements[position]")
     r2.must_fire(isinstance(ast.parse("y.reshape[0]").body[0].value.value, ast.Attribute), "y.reshape[0]")
+    position_tables(ctx)
+
+
+def _position_table_param(callee):
+    """Index of the parameter P such that `callee` returns an array allocated with leading extent len(P), else None."""
+    d = roles.Defs(callee)
+    rets = [n for n in ast.walk(callee) if isinstance(n, ast.Return) and isinstance(n.value, ast.Name)]
+    if len(rets) != 1:
+        return None
+    a = d.alloc(rets[0].value.id, rets[0].lineno)
+    if a is None or a[0] != "expr" or not isinstance(a[1], ast.Call) or unparse(a[1].func).split(".")[-1] not in ("empty", "zeros", "ones", "full") or not a[1].args:
+        return None
+    shp = a[1].args[0]
+    first = shp.elts[0] if isinstance(shp, ast.Tuple) and shp.elts else shp
+    ext = roles.canon(first, d).replace(" ", "")
+    for k, p in enumerate(arg_names(callee)):
+        if ext in ("len(%s)" % p, "%s.shape[0]" % p):
+            return k
+    return None
+
+
+def _pos_table_hits(fn, mod=None):
+    """Inside `for pos, elem in enumerate(X)`: arrays allocated in the function with leading extent len(X) (one slot per
+    listed element) whose first index is the element number `elem` instead of the position `pos`."""
+    defs = roles.Defs(fn)
+    hits, loops = [], 0
+    for node in ast.walk(fn):
+        if not (isinstance(node, ast.For) and isinstance(node.iter, ast.Call) and unparse(node.iter.func) == "enumerate" and len(node.iter.args) == 1
+                and isinstance(node.target, ast.Tuple) and len(node.target.elts) == 2 and all(isinstance(t, ast.Name) for t in node.target.elts)):
+            continue
+        X = roles.canon(node.iter.args[0], defs).replace(" ", "")
+        extents = {"len(%s)" % X, "%s.shape[0]" % X}
+        pos, elem = node.target.elts[0].id, node.target.elts[1].id
+        loops += 1
+        # arrays allocated with leading extent len(X)
+        tables = set()
+        for name, lst in defs.all.items():
+            for line, ranges, rec in lst:
+                if rec[0] != "expr" or not isinstance(rec[1], ast.Call) or unparse(rec[1].func).split(".")[-1] not in ("empty", "zeros", "ones", "full") or not rec[1].args:
+                    continue
+                shp = rec[1].args[0]
+                first = shp.elts[0] if isinstance(shp, ast.Tuple) and shp.elts else shp
+                ext = roles.canon(first, defs).replace(" ", "")
+                # len(X) itself or a product with len(X) as a factor (k slots per listed element)
+                if ext in extents or any(re.fullmatch(r"\((?:[^()+]*\*)?%s(?:\*[^()+]*)?\)" % re.escape(e), ext) for e in extents):
+                    tables.add(name)
+        # tables returned by helpers of the same module that allocate one slot per element of one of their parameters
+        if mod is not None:
+            for name, lst in defs.all.items():
+                for line, ranges, rec in lst:
+                    if rec[0] == "expr" and isinstance(rec[1], ast.Call) and isinstance(rec[1].func, ast.Name) and mod.has_fn(rec[1].func.id):
+                        k = _position_table_param(mod.fn(rec[1].func.id))
+                        if k is not None and k < len(rec[1].args) and roles.canon(rec[1].args[k], defs).replace(" ", "") == X:
+                            tables.add(name)
+        for sub in ast.walk(node):
+            if isinstance(sub, ast.Subscript) and isinstance(sub.value, ast.Name) and sub.value.id in tables:
+                first = sub.slice.elts[0] if isinstance(sub.slice, ast.Tuple) else sub.slice
+                names = {n.id for n in ast.walk(first) if isinstance(n, ast.Name)}
+                if elem in names and pos not in names:
+                    hits.append((sub.lineno, unparse(sub)))
+    return hits, loops
+
+
+def position_tables(ctx):
+    r = ctx.rule("IDX-POS-BY-ELEMENT", "inside `for pos, elem in enumerate(elements)`: arrays allocated with one slot per listed element are not indexed by the element number", 1)
+    bad, nloops = [], 0
+    for rel in ctx.repo.py_files("bempp_cl"):
+        m = ctx.repo.mod(rel)
+        for qn, fn in m.functions.items():
+            if "<" in qn:
+                continue
+            if not any(isinstance(n, ast.For) and isinstance(n.iter, ast.Call) and unparse(n.iter.func) == "enumerate" for n in ast.walk(fn)):
+                continue
+            hits, k = _pos_table_hits(fn, m)
+            nloops += k
+            for ln, txt in hits:
+                bad.append((rel, qn, ln, txt))
+    if nloops < 10:
+        raise AnalysisError("position-table lint examined only %d enumerate loops" % nloops)
+    if not bad:
+        r.ok("no position-sized table indexed by element number (%d enumerate loops)" % nloops)
+    for rel, qn, ln, txt in bad:
+        r.fail("%s::%s" % (rel.split("/")[-1], qn), rel, qn, ln, "position table indexed by element: " + txt, "`%s` indexes an array with one slot per listed element by the element number (out of bounds or wrong slot on subsets)" % txt)
+    posex = ast.parse("def f(els):\n    t = _np.zeros(len(els))\n    for i, e in enumerate(els):\n        t[e] = 1").body[0]
+    r.must_fire(bool(_pos_table_hits(posex)[0]), "t = zeros(len(els)); t[element]")
